@@ -150,7 +150,119 @@ func dirtyReceiver(r *hx.RNG, p int64, mode int, need int) (func() *decimal.Deci
 	}, names[kind]
 }
 
+// c10Setter: a setter's outcome on a receiver with previous contents must equal its outcome on a fresh receiver of
+// the same precision and mode.
+func c10Setter(c *hx.Ctx, r *hx.RNG) {
+	p := int64(r.Range(1, 60))
+	mode := r.Mode()
+	var name string
+	var apply func(z *decimal.Decimal)
+	switch r.Intn(11) {
+	case 0:
+		v := int64(gen64(r))
+		name = fmt.Sprintf("SetInt64(%d)", v)
+		apply = func(z *decimal.Decimal) { z.SetInt64(v) }
+	case 1:
+		v := gen64(r)
+		name = fmt.Sprintf("SetUint64(%d)", v)
+		apply = func(z *decimal.Decimal) { z.SetUint64(v) }
+	case 2:
+		b := hx.CoefOf(r.Digits(r.Range(1, 120)))
+		if r.Chance(25) { // values for which the digit estimate over-allocates by one word
+			b = new(big.Int).Lsh(big.NewInt(1), uint(63*r.Range(1, 4)))
+			b.Add(b, big.NewInt(int64(r.Range(0, 1000))))
+		}
+		if r.Bool() {
+			b.Neg(b)
+		}
+		name = "SetInt(" + b.String() + ")"
+		apply = func(z *decimal.Decimal) { z.SetInt(b) }
+	case 3:
+		q := new(big.Rat).SetFrac(hx.CoefOf(r.Digits(r.Range(1, 60))), hx.CoefOf(r.Digits(r.Range(1, 60))))
+		if r.Bool() {
+			q.Neg(q)
+		}
+		name = "SetRat(" + q.String() + ")"
+		apply = func(z *decimal.Decimal) { z.SetRat(q) }
+	case 4:
+		f, _ := genF64(r)
+		name = fmt.Sprintf("SetFloat64(%v)", f)
+		apply = func(z *decimal.Decimal) { z.SetFloat64(f) }
+	case 5:
+		bf, _ := genBigFloat(r, "quick")
+		name = "SetFloat(" + bf.Text('p', 0) + ")"
+		apply = func(z *decimal.Decimal) { z.SetFloat(bf) }
+	case 6:
+		lit := genLiteral10(r, hx.LimitsFor("quick"))
+		txt := lit.under
+		if len(txt) > 300 {
+			txt = lit.text[:100]
+		}
+		name = fmt.Sprintf("SetString(%q)", txt)
+		apply = func(z *decimal.Decimal) { z.SetString(txt) }
+	case 7:
+		n := r.Range(0, 8)
+		w0 := make([]decimal.Word, n)
+		for i := range w0 {
+			w0[i] = genWord(r)
+		}
+		e := r.LeadExp()
+		name = fmt.Sprintf("SetBitsExp(%v, %d)", w0, e)
+		apply = func(z *decimal.Decimal) { z.SetBitsExp(cloneW(w0), e) }
+	case 8:
+		sg := r.Bool()
+		name = fmt.Sprintf("SetInf(%v)", sg)
+		apply = func(z *decimal.Decimal) { z.SetInf(sg) }
+	case 9:
+		x := genGobValue(r)
+		b, _ := x.GobEncode()
+		name = fmt.Sprintf("GobDecode(%x)", b)
+		apply = func(z *decimal.Decimal) {
+			if err := z.GobDecode(b); err != nil {
+				panic("GobDecode: " + err.Error())
+			}
+		}
+	default:
+		x := genGobValue(r)
+		b, _ := x.MarshalText()
+		name = fmt.Sprintf("UnmarshalText(%q)", b)
+		apply = func(z *decimal.Decimal) {
+			if err := z.UnmarshalText(b); err != nil {
+				panic("UnmarshalText: " + err.Error())
+			}
+		}
+	}
+	what := fmt.Sprintf("%s prec=%d mode=%s", trunc120(name), p, oracle.ModeNames[mode])
+	c.Note(what)
+	fresh := newRecv(p, mode)
+	rpi := hx.Try(func() { apply(fresh) })
+	ref := hx.Snapshot(fresh)
+	c.Eval(hx.HashStr(what), true, "setter/"+opFamily(name))
+	for i := 0; i < 2; i++ {
+		prep, kind := dirtyReceiver(r, p, mode, 200)
+		z := prep()
+		pi := hx.Try(func() { apply(z) })
+		c.Classes["dirty/"+kind]++
+		c.Count("dirty_receiver_variants", 1)
+		if (pi == nil) != (rpi == nil) {
+			c.Violate("panic-differs", fmt.Sprintf("%s: fresh receiver panic=%s, receiver %s panic=%s", what, panicStr(rpi), kind, panicStr(pi)), "")
+			return
+		}
+		if pi != nil {
+			continue
+		}
+		if got := hx.Snapshot(z); !sameOutcome(ref, got) {
+			c.Violate("outcome-differs", fmt.Sprintf("%s: fresh receiver gives %s, receiver that held %s gives %s", what, ref, kind, got), "")
+			return
+		}
+	}
+}
+
 func c10Case(c *hx.Ctx, r *hx.RNG, idx int64) {
+	if r.Chance(22) {
+		c10Setter(c, r)
+		return
+	}
 	k := genC10(r, c.Tier)
 	ar := k.arity()
 	parts := partitions2
